@@ -76,10 +76,16 @@ def make_classes(prog, d, state):
                     state["npub"] += 1
                     ts = [TYPES[t] for t in types]
                     if fac:
-                        if name == 0 and state["r"].random() < 0.5:
-                            add_resource_factory(lambda: v, types=ts)
+                        if state["r"].random() < 0.5:
+                            async def factory(v=v):       # an asynchronous factory
+                                return v
                         else:
-                            add_resource_factory(lambda: v, NAMES[name], types=ts)
+                            def factory(v=v):
+                                return v
+                        if name == 0 and state["r"].random() < 0.5:
+                            add_resource_factory(factory, types=ts)
+                        else:
+                            add_resource_factory(factory, NAMES[name], types=ts)
                     else:
                         if name == 0 and state["r"].random() < 0.5:
                             add_resource(v, types=ts)
